@@ -163,14 +163,19 @@ func RepeatOnTime(t *Truth, retention time.Duration) *Report {
 			}
 			faults, maxDelay := t.ReceiverMaxDisturbance(prev.Receiver)
 			slack := time.Second + 2*maxDelay + prev.End.Sub(prev.Tick)
+			// Flushes of a group start at most one period apart: group_interval when deliveries are quick;
+			// when an integration of the receiver fails or hangs a flush can last the whole pipeline time-out
+			// "to" = max(group_interval, 10 s), the next one starts when it ends, and its tick (the time the
+			// repeat decision is taken with) lags the start by up to to - group_interval.
+			period := n.GroupInterval
 			if faults {
 				to := n.GroupInterval
 				if to < pipelineMinTimeout {
 					to = pipelineMinTimeout
 				}
-				slack += to
+				period = 2*to - n.GroupInterval
 			}
-			deadline := prev.End.Add(n.RepeatInterval + n.GroupInterval + slack)
+			deadline := prev.End.Add(n.RepeatInterval + period + slack)
 			if deadline.After(r.End) || deadline.After(ep.To) {
 				continue
 			}
